@@ -260,7 +260,7 @@ class Emit:
 
 class FnEmit:
     def __init__(s, E, f):
-        s.E = E; s.f = f; s.vars = {}; s.lines = []; s.tmpn = 0
+        s.E = E; s.f = f; s.vars = {}; s.lines = []; s.tmpn = 0; s.bcsrc = {}
     def v(s, name): return 'v_' + cname(name)
     def setvar(s, name, t):
         s.vars[s.v(name)] = t; return s.v(name)
@@ -330,7 +330,7 @@ class FnEmit:
         return '((%s)%s)' % (E.ctype(rt), expr) if rt else expr, cur
 
 def fname(n):
-    return n if n.startswith('h_') or n.startswith('vf_') or n in ('malloc', 'free') else 'f_' + n
+    return n if n.startswith('h_') or n.startswith('vf_') else 'f_' + n
 
 INTR = {'llvm.fabs.f64': 'vf_fabs', 'llvm.sqrt.f64': 'vf_sqrt', 'sqrt': 'vf_sqrt'}
 
@@ -419,7 +419,10 @@ def emit_function(E, f):
                 while p.peek()[1] in ATTRS: p.next()
                 t = p.type(); a = val(p, t); p.expect(','); b = val(p, t)
                 o = {'fadd': '+', 'fsub': '-', 'fmul': '*', 'fdiv': '/'}
-                body.append('%s = %s %s %s;' % (D(t), a, o[op], b))
+                if t.k == 'fp' and t.name == 'double' and op in o:
+                    body.append('%s = vf_%s(%s, %s);' % (D(t), op, a, b))
+                else:
+                    body.append('%s = %s %s %s;' % (D(t), a, o[op], b))
             elif op == 'fneg':
                 while p.peek()[1] in ATTRS: p.next()
                 t = p.type(); a = val(p, t); body.append('%s = -%s;' % (D(t), a))
@@ -460,6 +463,13 @@ def emit_function(E, f):
                 elif op == 'sitofp':
                     sf = 'int%d_t' % (8 if ft.bits <= 8 else 16 if ft.bits <= 16 else 32 if ft.bits <= 32 else 64)
                     e = '(%s)(%s)%s' % (ct, sf, a)
+                    if tt.name == 'double': e = 'vf_narrow(%s)' % e
+                elif op == 'uitofp':
+                    e = '(%s)%s' % (ct, a)
+                    if tt.name == 'double': e = 'vf_narrow(%s)' % e
+                elif op == 'fpext':
+                    e = '(%s)%s' % (ct, a)
+                    if tt.name == 'double': e = 'vf_narrow(%s)' % e
                 elif op == 'fptosi':
                     sf = 'int%d_t' % (8 if tt.bits <= 8 else 16 if tt.bits <= 16 else 32 if tt.bits <= 32 else 64)
                     if tt.bits in (32, 64): body.append('vf_fptosi_chk%d(%s);' % (tt.bits, a))
@@ -469,8 +479,11 @@ def emit_function(E, f):
                     e = '(%s)%s' % (ct, a)
                 elif op == 'bitcast' and not isptr(ft):
                     tmp = 'bc%d' % s.tmpn; s.tmpn += 1
-                    body.append('{ %s %s = %s; __builtin_memcpy(&%s, &%s, sizeof(%s)); }' % (E.ctype(ft), tmp, a, D(tt), tmp, D(tt))); continue
+                    body.append('{ %s %s = %s; memcpy(&%s, &%s, sizeof(%s)); }' % (E.ctype(ft), tmp, a, D(tt), tmp, D(tt))); continue
                 else: e = '(%s)%s' % (ct, a)
+                if op == 'bitcast' and isptr(ft) and dest:
+                    s.bcsrc[s.v(dest)] = ft
+                    if a not in s.bcsrc: s.bcsrc[a] = tt
                 body.append('%s = %s;' % (D(tt), e))
             elif op == 'getelementptr':
                 p.accept('inbounds'); bt = p.type(); p.expect(','); pt = p.type(); base = val(p, pt); idx = []
@@ -501,10 +514,16 @@ def emit_function(E, f):
                 fty = None
                 if rt.k == 'ptr' and rt.to.k == 'fn' and False: pass
                 if rt.k == 'fn': fty = rt; rt = fty.ret
-                p.expect('('); args = []
+                p.expect('('); args = []; aligns = []
                 if not p.accept(')'):
                     while True:
-                        at = p.type(); p.skip_attrs()
+                        at = p.type()
+                        al_ = 0
+                        for q_ in range(p.i, min(p.i + 12, len(p.t) - 1)):
+                            if p.t[q_][1] == 'align' and p.t[q_ + 1][0] == 'num': al_ = int(p.t[q_ + 1][1]); break
+                            if p.t[q_][1] in (',', ')') or p.t[q_][0] in ('id', 'qid'): break
+                        aligns.append(al_)
+                        p.skip_attrs()
                         if at.k == 'metadata':
                             while p.peek()[1] not in (',', ')'): p.next()
                             args.append(None)
@@ -515,9 +534,42 @@ def emit_function(E, f):
                     n = cname(callee); raw = callee[1:]
                     if raw.startswith('llvm.lifetime') or raw.startswith('llvm.experimental.noalias') or raw.startswith('llvm.dbg'): continue
                     if raw.startswith('llvm.assume'): continue
-                    if raw.startswith('llvm.memcpy'): cal = 'vf_memcpy'; args = args[:3]
-                    elif raw.startswith('llvm.memmove'): cal = 'vf_memmove'; args = args[:3]
-                    elif raw.startswith('llvm.memset'): cal = 'vf_memset'; args = args[:3]
+                    if raw.startswith('llvm.memcpy') or raw.startswith('llvm.memmove'):
+                        args = args[:3]
+                        cal = 'vf_memcpy' if raw.startswith('llvm.memcpy') else 'vf_memmove'
+                        if not re.fullmatch(r'\(\(uint64_t\)\d+ULL\)', args[2][1]):
+                            # symbolic length: CBMC's memcpy/memmove model havocs the destination.
+                            # Copy element-wise in the type the pointers were cast from.
+                            et = None
+                            for a_ in (args[0][1], args[1][1]):
+                                ft_ = s.bcsrc.get(a_)
+                                if ft_ is not None and ft_.to.k not in ('void', 'opaque', 'fn') and not (ft_.to.k == 'int' and ft_.to.bits == 8):
+                                    et = ft_.to; break
+                            al_ = min([x for x in aligns[:2] if x] or [1])
+                            ect = E.ctype(et) if et is not None else {1: 'unsigned char', 2: 'uint16_t', 4: 'uint32_t'}.get(al_, 'uint64_t')
+                            mv = 1 if cal == 'vf_memmove' else 0
+                            body.append('{ %s* d_ = (%s*)%s; %s* s_ = (%s*)%s; uint64_t n_ = %s / sizeof(%s); __CPROVER_assert(%s %% sizeof(%s) == 0, "memcpy length multiple of element size");'
+                                        ' if (!%d || (uintptr_t)d_ <= (uintptr_t)s_) { for (uint64_t i_ = 0; i_ < n_; i_++) d_[i_] = s_[i_]; } else { for (uint64_t i_ = n_; i_-- > 0;) d_[i_] = s_[i_]; } }'
+                                        % (ect, ect, args[0][1], ect, ect, args[1][1], args[2][1], ect, args[2][1], ect, mv))
+                            continue
+                    elif raw.startswith('llvm.memset'):
+                        cal = 'vf_memset'; args = args[:3]
+                        if not re.fullmatch(r'\(\(uint64_t\)\d+ULL\)', args[2][1]):
+                            ft_ = s.bcsrc.get(args[0][1]); et = None
+                            if ft_ is not None and ft_.to.k not in ('void', 'opaque', 'fn') and not (ft_.to.k == 'int' and ft_.to.bits == 8): et = ft_.to
+                            ect = E.ctype(et) if et is not None else 'unsigned char'
+                            body.append('{ %s* d_ = (%s*)%s; uint64_t n_ = %s / sizeof(%s); __CPROVER_assert(%s %% sizeof(%s) == 0, "memset length multiple of element size");'
+                                        ' for (uint64_t i_ = 0; i_ < n_; i_++) memset(&d_[i_], %s, sizeof(%s)); }' % (ect, ect, args[0][1], args[2][1], ect, args[2][1], ect, args[1][1], ect))
+                            continue
+                    elif re.match(r'llvm\.(u|s)(mul|add|sub)\.with\.overflow\.i(32|64)', raw):
+                        mm = re.match(r'llvm\.(u|s)(mul|add|sub)\.with\.overflow\.i(32|64)', raw)
+                        sg_, op_, w_ = mm.group(1), mm.group(2), int(mm.group(3))
+                        d = D(rt); big = '__int128' if w_ == 64 else 'int64_t'
+                        cs = (lambda x: '(%s)(int%d_t)%s' % (big, w_, x)) if sg_ == 's' else (lambda x: '(unsigned %s)%s' % (big, x) if w_ == 64 else '(uint64_t)%s' % x)
+                        o_ = {'mul': '*', 'add': '+', 'sub': '-'}[op_]
+                        full = '(%s %s %s)' % (cs(args[0][1]), o_, cs(args[1][1]))
+                        body.append('%s.f0 = (uint%d_t)(%s %s %s); %s.f1 = ((%s)(%sint%d_t)%s.f0 != %s);' % (d, w_, args[0][1], o_, args[1][1], d, ('unsigned ' + big if sg_ == 'u' and w_ == 64 else ('uint64_t' if sg_ == 'u' else big)), 'u' if sg_ == 'u' else '', w_, d, full))
+                        continue
                     elif raw.startswith('llvm.'): cal = 'vf_' + re.sub(r'[^a-z0-9]', '_', raw[5:]); args = [a for a in args if a]
                     else:
                         n = E.redirect.get(n, n)
@@ -623,6 +675,9 @@ def main():
         for kv in sys.argv[sys.argv.index('--redirect') + 1].split(','):
             if kv: a, b = kv.split('='); redirect[a] = b
     if '--meta' in sys.argv: metaf = sys.argv[sys.argv.index('--meta') + 1]
+    forbid = set()
+    if '--forbid' in sys.argv: forbid = set(x for x in sys.argv[sys.argv.index('--forbid') + 1].split(',') if x)
+    cuts |= forbid
     models = []
     if '--models' in sys.argv: models = [x for x in sys.argv[sys.argv.index('--models') + 1].split(',') if x]
     mod = parse_module(text)
@@ -715,7 +770,8 @@ def main():
         meta['externals'].append(n)
         proto = '%s %s(%s)' % (E.ctype(ret), fname(n), ', '.join('%s a%d' % (E.ctype(a), i) for i, a in enumerate(args)) or 'void')
         if fname(n) in have: meta['modelled'].append(n); stubs.append(proto + ';'); continue
-        if n in cuts: meta['cut'].append(n); act = 'vf_cut();'
+        if n in forbid: meta.setdefault('forbidden', []).append(n); act = '__CPROVER_assert(0, "reached-forbidden:%s"); __CPROVER_assume(0);' % n[:80]
+        elif n in cuts: meta['cut'].append(n); act = 'vf_cut();'
         else: meta['unmodelled'].append(n); act = '__CPROVER_assert(0, "unmodelled:%s"); __CPROVER_assume(0);' % n[:80]
         if ret.k == 'void': stubs.append(proto + ' { %s }' % act)
         else: stubs.append(proto + ' { %s %s r; return r; }' % (act, E.ctype(ret)))
